@@ -9,6 +9,16 @@ C02 — the property itself, over the plain history of operations (no fork table
   each such point ONCE, in the order written.
 
 Operations on other tasks do not occur in this definition at all (`enabledAfter` ignores them): that is the frame part of the property.
+And the recorded point itself (second part, `specDeliveredPts`): it IS the written point — name, database, retention policy
+(default substituted), tags, fields — except for what the from() options document:
+     * time: for every from() on the way from the stream node down to this one, in that order, `truncate(d)` = the last multiple
+       of d not after it, then `round(d)` = the nearest multiple of d (halfway: up); multiples are counted from Go's zero time
+       (0001-01-01T00:00:00Z), a duration ≤ 0 changes nothing;
+     * group-by dimensions: those of ITS OWN from() only: by-measurement flag = `groupByMeasurement()`, tag names = the names
+       listed in `groupBy(…)` in sorted order (whether or not the point has such a tag), or, under `groupBy(*)`, all tag keys of
+       the point in sorted order.
+  No other from() node — sibling in the same task, or node of another task — has any influence on it.
+
 Starting an id that is LIVE is refused and changes nothing (the task keeps its definition); after a drain (all executions ended)
 every id may be started again. Core Lean only.
 -/
@@ -78,6 +88,68 @@ def qualifies (i : Nat) (w : WEv) : Bool :=
 /-- **The specification**: what from-node #`i` of task `t` must have received after `ops`. -/
 def specDelivered (defaultRP t : String) (i : Nat) (ops : List Op) : List Nat :=
   ((writeEvents defaultRP t none ops).filter (qualifies i)).map (·.pt.id)
+
+/-! ### The from() options -/
+
+/-- ns from Go's zero time 0001-01-01T00:00:00Z to the Unix epoch -/
+def goZero : Int := 62135596800 * 1000000000
+
+/-- `truncate(d)`: the last multiple of `d` (counted from Go's zero time) that is not after `t`. -/
+def docTruncate (d t : Int) : Int := if d ≤ 0 then t else (t + goZero) / d * d - goZero
+
+/-- `round(d)`: the multiple of `d` nearest to `t`, halfway values go up. -/
+def docRound (d t : Int) : Int := if d ≤ 0 then t else (2 * (t + goZero) + d) / (2 * d) * d - goZero
+
+/-- The same two, as relations between written and recorded time (what "last multiple not after" and "nearest multiple" MEAN;
+theorems `docTruncate_is_truncation`, `docRound_is_rounding` and their uniqueness parts). -/
+def IsTruncation (d t r : Int) : Prop := if d ≤ 0 then r = t else (r + goZero) % d = 0 ∧ r ≤ t ∧ t < r + d
+def IsRounding (d t r : Int) : Prop := if d ≤ 0 then r = t else (r + goZero) % d = 0 ∧ 2 * (r - t) ≤ d ∧ 2 * (t - r) < d
+
+instance (d t r : Int) : Decidable (IsTruncation d t r) := by unfold IsTruncation; exact inferInstance
+instance (d t r : Int) : Decidable (IsRounding d t r) := by unfold IsRounding; exact inferInstance
+
+/-- The recorded time under from-node #`i`: the chain's truncate / round applied from the top down. -/
+def docTime (froms : List From) : Nat → Nat → Int → Int
+  | 0, _, t => t
+  | fuel + 1, i, t =>
+    match froms[i]? with
+    | none => t
+    | some f =>
+      docRound f.opts.round (docTruncate f.opts.truncate
+        (match f.parent with
+         | none => t
+         | some j => docTime froms fuel j t))
+
+/-- The names the point is grouped by: listed names, or all tag keys under `*`, in sorted order (the library sort). -/
+def docTagNames (o : FromOpts) (tags : List (String × String)) : List String :=
+  (if o.star then tags.map (·.1) else o.dims).mergeSort (fun a b => decide (a ≤ b))
+
+/-- `r` is `l` in sorted order (what `docTagNames` MEANS; theorem `docTagNames_sorted_perm`). -/
+def IsSortedPermOf (l r : List String) : Prop := r.Pairwise (· ≤ ·) ∧ r.Perm l
+
+/-- **The documented point**: what the sink under from-node #`i` records of the point of write event `w`. -/
+def docRec (froms : List From) (i : Nat) (w : WEv) : Rec :=
+  let o : FromOpts := match froms[i]? with
+    | some f => f.opts
+    | none => {}
+  { id := w.pt.id, name := w.pt.name, db := w.db, rp := w.rp, tags := w.pt.pl.tags, fields := w.pt.pl.fields,
+    time := docTime froms (i + 1) i w.pt.pl.time, byName := o.byName, tagNames := docTagNames o w.pt.pl.tags }
+
+/-- **The specification, whole points**: what from-node #`i` of task `t` must have recorded after `ops`. -/
+def specDeliveredPts (defaultRP t : String) (i : Nat) (ops : List Op) : List Rec :=
+  ((writeEvents defaultRP t none ops).filter (qualifies i)).filterMap (fun w => w.enabled.map (fun d => docRec d.froms i w))
+
+/-- Is from-node #`j` from-node #`i` itself or one of the from-nodes it is chained under? -/
+def onChain (froms : List From) : Nat → Nat → Nat → Bool
+  | 0, _, _ => false
+  | fuel + 1, i, j =>
+    i == j ||
+      (match froms[i]? with
+       | none => false
+       | some f =>
+         match f.parent with
+         | none => false
+         | some k => onChain froms fuel k j)
 
 /-- Ids of all written points, in write order. -/
 def writtenIds : List Op → List Nat
